@@ -150,4 +150,37 @@ def step {V : Type} (vo : VOps V) (st : St V) : Op V → St V × Option V
 def run {V : Type} (vo : VOps V) (st : St V) (ops : List (Op V)) : St V :=
   ops.foldl (fun s op => (step vo s op).1) st
 
+/-! ### several workers, one directory: processes die, `mark_process_dead` runs, pids are reused
+
+A *world history* is a sequence of events on ONE directory.  At any time one closure (one worker process) is acting;
+`spawn p` starts a NEW worker — a fresh `MultiProcessValue` closure with no open files and no value objects — whose
+`process_identifier()` returns `p`, on the directory as it is (this is also how a reused pid comes about);
+`dead p` is `multiprocess.mark_process_dead(p)`: every `gauge_<live mode>_<p>.db` is removed, and if `p` is an identity of
+the acting closure that closure is gone (its process is dead, it will not act again).
+Workers that run simultaneously have distinct identities, touch disjoint files (`writes_only_own_files`) and therefore
+commute; a world history lists each worker's calls contiguously. -/
+
+/-- `f'gauge_{mode}_{pid}.db'` for some live mode -/
+def isLiveFileOf (pid : Str) (fn : Str) : Bool :=
+  liveModes.any (fun m => decide (fn = Multiprocess.deadName m pid))
+
+/-- the directory after `mark_process_dead(pid)` -/
+def deadDisk {V : Type} (pid : Str) (disk : List (Str × Store V)) : List (Str × Store V) :=
+  disk.filter (fun f => !isLiveFileOf pid f.1)
+
+inductive Ev (V : Type)
+  | op (o : Op V)
+  | spawn (p : Str)
+  | dead (p : Str)
+
+def wstep {V : Type} (vo : VOps V) (st : St V) : Ev V → St V × Option V
+  | .op o => step vo st o
+  | .spawn p => (⟨p, [], [], st.disk, p⟩, none)
+  | .dead p =>
+    if p = st.pid ∨ p = st.actual then (⟨st.pid, [], [], deadDisk p st.disk, st.actual⟩, none)
+    else ({ st with disk := deadDisk p st.disk }, none)
+
+def wrun {V : Type} (vo : VOps V) (st : St V) (evs : List (Ev V)) : St V :=
+  evs.foldl (fun s e => (wstep vo s e).1) st
+
 end PromVerif.Model.Values
